@@ -813,6 +813,18 @@ impl RefModel {
                     }
                 }
             }
+            ["settsraw", _, c, m] => {
+                // (layout generator only) raw FILETIME values of a storage
+                let Some(names) = names else { return Some("err invalidInput".into()) };
+                match self.find_mut(&names) {
+                    Some(RNode::Storage { meta, .. }) => {
+                        meta.ctime = c.parse().unwrap();
+                        meta.mtime = m.parse().unwrap();
+                        "ok".into()
+                    }
+                    _ => "err notFound".into(),
+                }
+            }
             ["flush"] => "ok".into(),
             _ => return None,
         })
